@@ -108,9 +108,21 @@ def register(reg):
     @reg.contract
     class FwdHandle(Contract):
         key = FWD + ".handle_async_request"
-        props = ("C11", "C10", "C03", "C15", "C14")
+        props = ("C11", "C10", "C03", "C15", "C14", "C19")
         raises = CONN_RAISES + ["Cancelled"]
         raises_props = ("C15",)
+
+        def _untouched(self, c):
+            # the pool re-sends the SAME Request object after ConnectionNotAvailable and re-reads request.url.origin to route
+            # it: the proxy hop must build its own request, never re-address the caller's in place (seed C19-w4-2)
+            w = [e for e in c.events("field.write") if e.data["key"].startswith("Request.") or e.data["key"].startswith("URL.")]
+            return len(w) == 0
+
+        def checks(self, c):
+            return self._checks_main(c) + [("callers_request_object_is_not_modified", ("C19", "C03", "C14", "C10"), self._untouched(c))]
+
+        def exc_checks(self, c, exc):
+            return [("callers_request_object_is_not_modified", ("C19", "C03", "C14", "C10"), self._untouched(c))]
 
         def callsite(self, c, ev):
             s = c.self
@@ -139,7 +151,7 @@ def register(reg):
                 ]
             return []
 
-        def checks(self, c):
+        def _checks_main(self, c):
             hs = c.events("ci.handle_request")
             inits = c.events("Request.__init__")
             ok = len(hs) == 1 and "result" in hs[0].data
